@@ -137,7 +137,9 @@ def run_case(case):
                             d.join('src', ['k'], 'tgt', ['k'], {'o': {'name': 'v', 'aggregate': agg}}, mode=mode)]
         prog = {'join': agg, 'source_type': ftyp, 'mode': mode}
     elif fam == 'matrix_misc':
-        kind = rng.choice(['concatenate', 'unpivot', 'set_type', 'find_replace', 'duplicate_alias', 'load_csv'])
+        kind = rng.choice(['concatenate', 'unpivot', 'set_type', 'find_replace', 'duplicate_alias', 'load_csv',
+                           'twin_isolation', 'twin_isolation', 'rename_chain', 'multi_then_single',
+                           'multi_then_single'])
         if kind == 'concatenate':
             ftyp = rng.choice(sorted(TYPED))
             a = typed_table(rng, [('v', ftyp)], 3)
@@ -171,6 +173,68 @@ def run_case(case):
             mk = lambda e: [lab.source('t', fl, rows),                                          # noqa: E731
                             d.find_replace([{'name': 'v', 'patterns': [{'find': '1', 'replace': '9'}]}])]
             label = 'find_replace/' + ftyp
+        elif kind == 'twin_isolation':
+            # duplicate, then a schema-changing step restricted to ONE of the twins: the other twin's descriptor
+            # and rows must stay in agreement (shared schema objects would edit both descriptors)
+            rows = typed_table(rng, [('v', 'integer'), ('w', 'string'), ('x', 'integer')], rng.choice([1, 5, 30]))
+            fl = [{'name': 'id', 'type': 'integer'}, {'name': 'v', 'type': 'integer'}, {'name': 'w', 'type': 'string'},
+                  {'name': 'x', 'type': 'integer'}]
+            which = rng.choice(['t', 't2'])
+            opk = rng.choice(['delete_fields', 'rename_fields', 'select_fields', 'set_type', 'add_field',
+                              'add_computed_field', 'update_schema', 'set_primary_key', 'unpivot'])
+            to_end = rng.random() < 0.5
+
+            def twin_step():
+                return {'delete_fields': lambda: d.delete_fields(['w'], resources=which),
+                        'rename_fields': lambda: d.rename_fields({'w': 'w2'}, resources=which),
+                        'select_fields': lambda: d.select_fields(['id', 'x'], resources=which),
+                        'set_type': lambda: d.set_type('x', type='string', transform=lambda v: None if v is None else str(v),
+                                                       resources=which),
+                        'add_field': lambda: d.add_field('c', 'integer', 5, resources=which),
+                        'add_computed_field': lambda: d.add_computed_field(
+                            [{'target': 'c2', 'operation': 'sum', 'source': ['v', 'x']}], resources=which),
+                        'update_schema': lambda: d.update_schema(which, missingValues=['', 'NA']),
+                        'set_primary_key': lambda: d.set_primary_key(['id'], resources=which),
+                        'unpivot': lambda: d.unpivot([{'name': 'v', 'keys': {'k': 'V'}}, {'name': 'x', 'keys': {'k': 'X'}}],
+                                                     [{'name': 'k', 'type': 'string'}], {'name': 'val', 'type': 'integer'},
+                                                     regex=False, resources=which)}[opk]()
+            mk = lambda e: [lab.source('t', fl, rows), d.duplicate('t', 't2', duplicate_to_end=to_end), twin_step()]  # noqa
+            label = 'twin_isolation/%s/%s' % (opk, 'copy' if which == 't2' else 'original')
+        elif kind == 'rename_chain':
+            rows = typed_table(rng, [('a', 'integer'), ('b', 'string'), ('c', 'number')], 6)
+            fl = [{'name': 'id', 'type': 'integer'}, {'name': 'a', 'type': 'integer'}, {'name': 'b', 'type': 'string'},
+                  {'name': 'c', 'type': 'number'}]
+            mapping, rx = rng.choice([({'a': 'b', 'b': 'a'}, False), ({'a': 'b', 'b': 'c', 'c': 'a'}, False),
+                                      ({'a': 'b', 'b': 'z'}, False), ({'b': 'z', 'a': 'b'}, True),
+                                      ({'(a)': r'b', 'b': 'zz'}, True)])
+            mk = lambda e: [lab.source('t', fl, rows), d.rename_fields(dict(mapping), regex=rx)]   # noqa: E731
+            label = 'rename_chain/%d' % len(mapping)
+        elif kind == 'multi_then_single':
+            # one step edits several resources at once, a later step edits only one of them
+            rows1 = typed_table(rng, [('v', 'integer')], 4)
+            rows2 = typed_table(rng, [('v', 'integer')], 3)
+            fl = [{'name': 'id', 'type': 'integer'}, {'name': 'v', 'type': 'integer'}]
+            first = rng.choice(['add_field', 'add_computed_dict', 'add_computed_name', 'set_type_all', 'update_schema'])
+            second = rng.choice(['set_type', 'rename_fields', 'delete_fields'])
+            tgt = rng.choice(['r1', 'r2'])
+            newf = 'd' if first.startswith('add') else 'v'
+
+            def s1():
+                return {'add_field': lambda: d.add_field('d', 'integer', 5),
+                        'add_computed_dict': lambda: d.add_computed_field(
+                            [{'target': {'name': 'd', 'type': 'integer'}, 'operation': 'sum', 'source': ['v', 'id']}]),
+                        'add_computed_name': lambda: d.add_computed_field(
+                            [{'target': 'd', 'operation': 'sum', 'source': ['v', 'id']}]),
+                        'set_type_all': lambda: d.set_type('v', type='number', resources=None),
+                        'update_schema': lambda: d.update_schema(None, missingValues=['', 'NA'])}[first]()
+
+            def s2():
+                return {'set_type': lambda: d.set_type(newf, type='string', resources=tgt,
+                                                       transform=lambda v: None if v is None else str(v)),
+                        'rename_fields': lambda: d.rename_fields({newf: 'renamed'}, resources=tgt, regex=False),
+                        'delete_fields': lambda: d.delete_fields([newf], resources=tgt, regex=False)}[second]()
+            mk = lambda e: [lab.source('r1', fl, rows1), lab.source('r2', fl, rows2), s1(), s2()]   # noqa: E731
+            label = 'multi_then_single/%s/%s' % (first, second)
         elif kind == 'duplicate_alias':
             rows = typed_table(rng, [('v', 'integer')], 5)
             fl = [{'name': 'id', 'type': 'integer'}, {'name': 'v', 'type': 'integer'}]
